@@ -3,6 +3,7 @@ package container
 import (
 	"bytes"
 	"encoding/base64"
+	"errors"
 	"io"
 
 	"github.com/ipfs/go-cid"
@@ -63,9 +64,12 @@ func (ctn Writer) ToCborBase64() ([]byte, error) {
 }
 
 // ToCborBase64Writer is the same as ToCborBase64, but with an io.Writer.
-func (ctn Writer) ToCborBase64Writer(w io.Writer) error {
+func (ctn Writer) ToCborBase64Writer(w io.Writer) (err error) {
 	w2 := base64.NewEncoder(base64.StdEncoding, w)
-	defer w2.Close()
+	defer func() {
+		// Close flushes the last, partial, base64 quantum: its error matters
+		err = errors.Join(err, w2.Close())
+	}()
 	return ctn.ToCborWriter(w2)
 }
 
@@ -101,8 +105,11 @@ func (ctn Writer) ToCarBase64() ([]byte, error) {
 }
 
 // ToCarBase64Writer is the same as ToCarBase64, but with an io.Writer.
-func (ctn Writer) ToCarBase64Writer(w io.Writer) error {
+func (ctn Writer) ToCarBase64Writer(w io.Writer) (err error) {
 	w2 := base64.NewEncoder(base64.StdEncoding, w)
-	defer w2.Close()
+	defer func() {
+		// Close flushes the last, partial, base64 quantum: its error matters
+		err = errors.Join(err, w2.Close())
+	}()
 	return ctn.ToCarWriter(w2)
 }
